@@ -364,7 +364,7 @@ fn explore_cmp(out: &mut Outcome, viol: &mut Vec<StructViolation>) {
 }
 
 fn write_struct_replay(v: &StructViolation) -> PathBuf {
-    let dir = std::path::Path::new(check::VERIF).join("replays").join("C12");
+    let dir = std::path::Path::new(&check::verif_root()).join("replays").join("C12");
     let _ = std::fs::create_dir_all(&dir);
     let h = crate::explore::hash_of(&(v.cell, &v.history, &v.query));
     let path = dir.join(format!("{:016x}.json", h));
